@@ -462,7 +462,6 @@ func TestVerifStressGrowth(t *testing.T) {
 	fmt.Printf("VERIF-STRESS-GROWTH rounds=%d\n", rounds)
 }
 
-
 // ---- round-robin BIND under concurrency and across the 2^31 boundary of the cursor (C09).
 // n READY channels, w goroutines x m BIND picks with n | w*m: "any n x k consecutive BIND calls put exactly k on each
 // channel" - concurrent calls are consecutive in some order, so the totals per channel must be equal. Kind "rrwrap": the
